@@ -61,6 +61,24 @@ Definition confirm_token_of (u : user) (tok : bytes) : bool :=
 
 Definition is_locked_at (u : user) (t : Z) : bool := t + 2 <? u_locked u.   (* safely locked *)
 
+(* Under the global remember wrapper ([c_wrap_remember]) a module-route request that arrives without an
+   identity and with a valid remember cookie is logged in by the wrapper before the route's own handler
+   runs.  For the route's own clauses the identity the request had "before" is then the cookie owner's. *)
+Definition wrapped_route (r : request) : bool :=
+  c_wrap_remember cfg && match q_route r with RApp _ _ _ _ _ _ _ => false | _ => true end.
+Definition uid_before (w : world) (r : request) (i : iobs) : option bytes :=
+  let b := q_browser r in
+  match uid_in (sess_of w b) with
+  | Some u => Some u
+  | None =>
+      if wrapped_route r then
+        match alookup k_rm (cook_of w b), uid_in (io_sess i) with
+        | Some c, Some U => if cookie_valid_for w c U then Some U else None
+        | _, _ => None
+        end
+      else None
+  end.
+
 (* ---- C01: which credential of U a request proves -------------------------------- *)
 Definition cred_proven (g : ghost) (w : world) (r : request) (O : oracle) (i : iobs) (U : bytes) : bool :=
   let vals := values_of r in
@@ -122,7 +140,7 @@ Definition may_drop_uid (r : request) : bool :=
 Definition pred_c01 (g : ghost) (w : world) (a : action) (O : oracle) (w' : world) (i : iobs) : list Z :=
   match a with
   | AReq r =>
-      let before := uid_in (sess_of w (q_browser r)) in
+      let before := uid_before w r i in
       let after := uid_in (io_sess i) in
       if obytes_eq before after then []
       else match after with
@@ -144,7 +162,7 @@ Definition pred_c02 (g : ghost) (w : world) (a : action) (O : oracle) (w' : worl
   | AReq r =>
       let sess := sess_of w (q_browser r) in
       let vals := values_of r in
-      let before := uid_in sess in
+      let before := uid_before w r i in
       let after := uid_in (io_sess i) in
       if obytes_eq before after then [] else
       match after with
@@ -181,7 +199,7 @@ Definition interactive_login (r : request) : bool :=
 Definition pred_c03 (g : ghost) (w : world) (a : action) (O : oracle) (w' : world) (i : iobs) : list Z :=
   match a with
   | AReq r =>
-      let before := uid_in (sess_of w (q_browser r)) in
+      let before := uid_before w r i in
       let after := uid_in (io_sess i) in
       (if interactive_login r && negb (obytes_eq before after) then
          match after with
@@ -387,8 +405,34 @@ Definition pred_c07 (g : ghost) (w : world) (a : action) (O : oracle) (w' : worl
               end
           | _, _ => []
           end
+      | _ =>
+      (* under the global wrapper the same holds on module routes, except that the route itself may go on
+         to change the identity (a login for somebody else, a logout): rotation, consumption, single use *)
+      (if wrapped_route r then
+         match before, alookup k_rm (cook_of w b) with
+         | None, Some c =>
+             if io_status i =? 0 then [] else
+             match uid_before w r i with
+             | Some U =>
+                 (match b64url_dec c with
+                  | Some raw => if bmem (sx raw) (rm_of_i i U) then [1076] else []
+                  | None => [] end) ++
+                 (if obytes_eq (alookup k_rm (io_cook i)) (Some c) then [1075] else []) ++
+                 (if existsb (fun x => beqb (snd x) c) (g_used g) then [1077] else [])
+             | None =>
+                 match cookie_owner w c with
+                 | Some _ => []     (* valid, but the route then named somebody else *)
+                 | None => if obytes_eq (alookup k_rm (io_cook i)) (Some c) then [1078] else []
+                 end
+             end
+         | _, _ => []
+         end
+       else []) ++
+      match q_route r with
       | RLogin | ROtpLogin =>
-          (* a cookie is only issued when asked for, and for the account that just logged in *)
+          (* a cookie is only issued when asked for, and for the account that just logged in
+             (a cookie the global wrapper rotates on the way is judged above) *)
+          if wrapped_route r && ahas k_rm (cook_of w b) then [] else
           if obytes_eq (alookup k_rm (cook_of w b)) (alookup k_rm (io_cook i)) then []
           else if ahas k_rm (io_cook i) && negb (beqb (aget k_rm (values_of r)) v_true) then [1073]
           else match alookup k_rm (io_cook i), after with
@@ -401,6 +445,7 @@ Definition pred_c07 (g : ghost) (w : world) (a : action) (O : oracle) (w' : worl
                | None, _ => []
                end
       | _ => []
+      end
       end
   | _ => []
   end.
@@ -428,7 +473,7 @@ Definition pred_c12 (g : ghost) (w : world) (a : action) (O : oracle) (w' : worl
   | AReq r =>
       let b := q_browser r in
       let vals := values_of r in
-      let before := uid_in (sess_of w b) in
+      let before := uid_before w r i in
       let after := uid_in (io_sess i) in
       (* a one-time password that was accepted as the first factor is spent too: the login it enabled
          completes at the second-factor step *)
@@ -607,7 +652,7 @@ Definition pred_c19 (g : ghost) (w : world) (a : action) (O : oracle) (w' : worl
           let post := io_users i in
           let policy_ok := valid [pid_rule_c; password_rule] pw_pairs vals in
           let should_create := policy_ok && (length pw <=? 72)%nat && negb (existsb (fun u => beqb (u_pid u) pid) pre) in
-          let before := uid_in (sess_of w (q_browser r)) in
+          let before := uid_before w r i in
           let after := uid_in (io_sess i) in
           let nofault := match o_faults O with [] => true | _ => false end in
           let created := match iuser_of i pid with
@@ -672,7 +717,7 @@ Definition pred_c09 (g : ghost) (w : world) (a : action) (O : oracle) (w' : worl
           end
       | RLogin | ROtpLogin | RTotpValidate | RSmsValidate | RRecoverEnd =>
           (* login itself starts the idle clock *)
-          if c_expire cfg && negb (obytes_eq (uid_in (sess_of w (q_browser r))) (uid_in (io_sess i))) &&
+          if c_expire cfg && negb (obytes_eq (uid_before w r i) (uid_in (io_sess i))) &&
              match uid_in (io_sess i) with Some _ => true | None => false end then
             match alookup k_last_action (io_sess i) with
             | Some s => match zparse s with Some d => if near d (o_now O) then [] else [1096] | None => [1096] end
@@ -730,7 +775,7 @@ Definition pred_c18 (g : ghost) (w : world) (a : action) (O : oracle) (w' : worl
                match idx with
                | Some n =>
                    if existsb (fun f => Nat.eqb (fst f) n) (o_faults O) &&
-                      negb (obytes_eq (uid_in (sess_of w (q_browser r))) (uid_in (io_sess i))) &&
+                      negb (obytes_eq (uid_before w r i) (uid_in (io_sess i))) &&
                       match uid_in (io_sess i) with Some _ => true | None => false end then [1182] else []
                | None => []
                end
@@ -738,7 +783,7 @@ Definition pred_c18 (g : ghost) (w : world) (a : action) (O : oracle) (w' : worl
           ++
           (* the same, said on the state instead of on the call list: whichever call failed, a request that
              ends logged in on a one-time password or recovery code leaves that value unusable *)
-          (let before := uid_in (sess_of w (q_browser r)) in
+          (let before := uid_before w r i in
            let after := uid_in (io_sess i) in
            if obytes_eq before after then [] else
            match after with
